@@ -33,6 +33,34 @@ fn main() {
         let back = <paseto_json::Json<serde_json::Value> as Payload>::decode(&w).expect("decode");
         assert_eq!(back.0, val);
         assert!(<paseto_json::Json<serde_json::Value> as Footer>::decode(b"").is_err());
+        // transcript: what the generic JSON wrappers accept and produce must not depend on whether the
+        // `claims` feature (an unrelated type) is compiled in
+        const TS: &[&str] = &["2039-01-01T00:00:00+00:00", "9999-12-31T23:59:59Z", "not a date", "", "2016-12-31T23:59:60Z", "-009999-01-02T01:59:59Z"];
+        let mut texts: Vec<String> = vec![];
+        for ts in TS {
+            for m in ["exp", "nbf", "iat"] {
+                texts.push(format!("{{\"{m}\":\"{ts}\"}}"));
+            }
+        }
+        for t in ["{\"exp\":253402300799}", "{\"exp\":null}", "{\"exp\":{\"secs\":1}}", "{\"sub\":7}", "{\"sub\":null,\"iss\":[1]}", "{\"aud\":{}}", "{\"jti\":true}", "{}", "[]", "null", "1", "\"s\"", "[{\"exp\":1}]",
+            "{\"exp\":\"2039-01-01T00:00:00Z\",\"exp\":1}", "{\"iss\":\"i\",\"sub\":\"s\",\"aud\":\"a\",\"jti\":\"j\",\"x\":[1,2]}", " {\"a\" : 1 } ", "{\"a\":1}x", "", "{"] {
+            texts.push(t.to_string());
+        }
+        for (i, t) in texts.iter().enumerate() {
+            let p = <paseto_json::Json<serde_json::Value> as Payload>::decode(t.as_bytes()).map(|j| j.0.to_string());
+            println!("T json.payload.decode.{i}={}", match &p { Ok(v) => format!("Ok({v})"), Err(_) => "Err".to_string() });
+            let f = <paseto_json::Json<serde_json::Value> as Footer>::decode(t.as_bytes()).map(|j| j.0.to_string());
+            println!("T json.footer.decode.{i}={}", match &f { Ok(v) => format!("Ok({v})"), Err(_) => "Err".to_string() });
+            #[derive(serde::Deserialize, serde::Serialize, Debug)]
+            struct Loose { exp: Option<serde_json::Value>, sub: Option<serde_json::Value> }
+            let l = <paseto_json::Json<Loose> as Payload>::decode(t.as_bytes()).map(|j| format!("{:?}", j.0));
+            println!("T json.typed.decode.{i}={}", match &l { Ok(v) => format!("Ok({v})"), Err(_) => "Err".to_string() });
+            if let Ok(v) = serde_json::from_str::<serde_json::Value>(t) {
+                let mut w = Vec::new();
+                let r = paseto_json::Json(v).encode(&mut w);
+                println!("T json.payload.encode.{i}={}", if r.is_ok() { String::from_utf8_lossy(&w).into_owned() } else { "Err".into() });
+            }
+        }
     }
     #[cfg(feature = "claims")]
     {
